@@ -199,7 +199,7 @@ add("c13-export-reinitializes", "C13", "solver.py",
     '        """export the model to a smt file to be processed by another SMT solver"""\n        if not self._initialized:\n            self.initialize()',
     '        """export the model to a smt file to be processed by another SMT solver"""\n        self.initialize()')
 # ---- C14
-add("c14-negative-int-constant", "C14", "problem.py", "        self._unique_integer += -1\n        return self._unique_integer", "        return -1")
+add("c14-negative-int-constant", "C05", "problem.py", "        self._unique_integer += -1\n        return self._unique_integer", "        return -1")
 add("c14-point-in-past-by-name-length", "C14", "task.py", "            point_in_past = -self._task_number", "            point_in_past = -len(self.name)")
 add("c14-class-level-counter", "C14", "task.py",
     "        self._task_number = processscheduler.base.active_problem.add_task(self)  # type: int",
@@ -207,8 +207,9 @@ add("c14-class-level-counter", "C14", "task.py",
 # ---- C15
 add("c15-debug-first-only", "C15", "solver.py",
     "            for asst in assts:\n                asst_identifier", "            for asst in assts[:1]:\n                asst_identifier")
-add("c15-random-changes-assertion", "C15", "solver.py",
-    "            z3.set_option(\"smt.arith.random_initial_value\", True)", "            z3.set_option(\"smt.arith.random_initial_value\", True)\n            self.max_iter = 1")
+add("c15-random-skips-horizon", "C15", "solver.py",
+    "            self.append_z3_assertion(task._end <= self.problem._horizon)",
+    "            if not (self.random_values and task.optional):\n                self.append_z3_assertion(task._end <= self.problem._horizon)")
 # ---- C16
 add("c16-df-start-end-swapped", "C16", "solution.py", '                "Start": starts,\n                "End": ends,', '                "Start": ends,\n                "End": starts,')
 add("c16-xlsx-start-no-plus1", "C16", "excel_io.py",
